@@ -34,7 +34,7 @@ MON = {
 STRATEGIES = ["honest", "offpoly-share", "withhold-share", "malformed-share", "wrong-tag", "empty-payload", "duplicate-share", "offpoly-reveal",
               "reveal-mismatch", "equivocate-commit", "withhold-commit", "duplicate-commit", "rushing", "reveal-before-commits", "early-reveal",
               "equivocate-reveal", "withhold-reveal", "malformed-reveal", "truncated-reveal", "empty-reveal", "duplicate-reveal", "empty-commit-rush"]
-PS_STRATEGIES = ["ps-offpoly-share-x", "ps-offpoly-share-y-first", "ps-offpoly-share-y-last"]
+PS_STRATEGIES = ["ps-offpoly-share-x", "ps-offpoly-share-y-first", "ps-offpoly-share-y-last", "ps-empty-commit-then-real", "ps-garbage-commit-then-real"]
 
 
 def tlc_dkg(wd, tr, pid):
